@@ -27,6 +27,8 @@ func init() {
 			{ID: "C09.7", Desc: "Expires-based lifetime is Expires minus Date (a shorter lifetime makes fresh entries miss)", Run: func(c *Ctx) { ruleExpiresMinusDate(c, "C09.7") }, MinSites: 1},
 			{ID: "C09.6", Desc: "values written to the JSON index survive the encoding (else the variant is never selected again)", Run: func(c *Ctx) { ruleIndexValuesUTF8Safe(c, "C09.6") }, MinSites: 1},
 			{ID: "C09.5", Desc: "synthesised Date is valid UTC (a wrong Date makes fresh entries look stale)", Run: func(c *Ctx) { ruleDateRepair(c, "C09.5") }, MinSites: 1},
+			{ID: "C09.10", Desc: "equivalent spellings with percent-encoded dot segments share the key (decode before dot-segment removal)", Run: func(c *Ctx) { ruleDotAfterDecode(c, "C09.10") }, MinSites: 1},
+			{ID: "C09.11", Desc: "tables of header field names are keyed by canonical names (TE is looked up as Te)", Run: func(c *Ctx) { ruleHeaderTablesCanonical(c, "C09.11") }, MinSites: 1},
 		},
 	})
 }
